@@ -106,6 +106,17 @@ class AddressBase(Base):
     # =========================== property ===========================
 
     @property
+    def version(self):
+        """Software version, the members of an address group follow it."""
+        return self._version
+
+    @version.setter
+    def version(self, version) -> None:
+        self._version = version
+        for item in getattr(self, "_items", []):
+            item.version = version
+
+    @property
     @abstractmethod
     def items(self):
         """List of Address or AddressAg objects for address group."""
